@@ -247,12 +247,15 @@ def orientation_rules(run, db):
         run.check(ph.dims is not None and ph.dims == [rows, cols], 'C14.header', fr.qual, 'zygo shape roles', 'reshape((cn_height, cn_width)) matches the writer (height=shape[0], width=shape[1])',
                   'reader reshapes to %r but the writer stores height=shape[0], width=shape[1]' % (ph.dims,), fr.loc())
     # writer header fields for the shape
+    # the header table is the local bound to _zygo_metadata_helper(); its overrides are <table>['field'][3] = value
+    from ..core.pattern import find
+    tabs = {b_['V_d'] for b_, _ in find(fw.node, 'V_d = _zygo_metadata_helper()')}
+    if len(tabs) != 1:
+        raise AnalysisError('write_zygo_dat: the header table (bound to _zygo_metadata_helper()) was not found')
     sets = {}
-    for n in walk_no_nested(fw.node):
-        if isinstance(n, ast.Assign) and isinstance(n.targets[0], ast.Subscript) and 'defaults[' in ast.unparse(n.targets[0]):
-            key = n.targets[0].value.slice.value if isinstance(n.targets[0].value, ast.Subscript) and isinstance(n.targets[0].value.slice, ast.Constant) else None
-            if key:
-                sets[key] = ast.unparse(n.value)
+    for b_, n in find(fw.node, '%s[E_k][3] = E_v' % sorted(tabs)[0]):
+        if isinstance(b_['E_k'], ast.Constant) and isinstance(b_['E_k'].value, str):
+            sets[b_['E_k'].value] = ast.unparse(b_['E_v'])
     run.check(sets.get('cn_width') == 'phase.shape[1]' and sets.get('cn_height') == 'phase.shape[0]', 'C14.header', fw.qual, 'zygo shape fields', 'cn_width=shape[1], cn_height=shape[0]',
               'writer stores cn_width=%s, cn_height=%s' % (sets.get('cn_width'), sets.get('cn_height')), fw.loc())
     run.check(sets.get('cn_n_bytes', '').replace(' ', '') == 'phase.size*4', 'C14.header', fw.qual, 'zygo byte count', 'cn_n_bytes = 4 bytes per sample', 'cn_n_bytes = %s' % sets.get('cn_n_bytes'), fw.loc())
@@ -305,13 +308,20 @@ def codev_rules(run, db):
         return None
     g1, g2 = after('GRD', 1), after('GRD', 2)
     # ---- reader: which GRD token becomes rows of reshape
-    grd = {}
+    # the reader's locals by the header token they are parsed from: under `if <tokens>[<i>].upper() == 'TOK':` the statement
+    # `<name> = conv(<tokens>[<i> + k])` makes <name> the k-th value of TOK
+    tokvar = {}
     for n in walk_no_nested(fr.node):
-        if isinstance(n, ast.If) and "'GRD'" in ast.unparse(n.test):
-            for st in n.body:
-                if isinstance(st, ast.Assign) and isinstance(st.value, ast.Call) and 'params[i + ' in ast.unparse(st.value):
-                    k = int(ast.unparse(st.value).split('params[i + ')[1].split(']')[0])
-                    grd[ast.unparse(st.targets[0])] = k
+        if not (isinstance(n, ast.If) and isinstance(n.test, ast.Compare) and len(n.test.ops) == 1 and isinstance(n.test.ops[0], ast.Eq)
+                and isinstance(n.test.comparators[0], ast.Constant) and isinstance(n.test.comparators[0].value, str)):
+            continue
+        tok = n.test.comparators[0].value
+        for st in n.body:
+            if isinstance(st, ast.Assign) and isinstance(st.targets[0], ast.Name) and isinstance(st.value, ast.Call) and len(st.value.args) == 1:
+                a_ = st.value.args[0]
+                if isinstance(a_, ast.Subscript) and isinstance(a_.slice, ast.BinOp) and isinstance(a_.slice.op, ast.Add) and isinstance(a_.slice.right, ast.Constant):
+                    tokvar[(tok, a_.slice.right.value)] = st.targets[0].id
+    grd = {v: k for (tok, k), v in tokvar.items() if tok == 'GRD'}
     resh = [n for n in walk_no_nested(fr.node) if isinstance(n, ast.Call) and isinstance(n.func, ast.Attribute) and n.func.attr == 'reshape']
     if len(resh) != 1 or not grd:
         raise AnalysisError('read_codev_gridint: GRD parsing / reshape not recognised')
@@ -344,14 +354,19 @@ def codev_rules(run, db):
         raise AnalysisError('read_codev_gridint: no analysable returning path')
     # sentinel and scale tokens
     nda_w = after('NDA')
-    stores = [n for n in walk_no_nested(fw.node) if isinstance(n, ast.Assign) and isinstance(n.targets[0], ast.Subscript) and ast.unparse(n.targets[0].slice) == 'NDA_PIX']
+    # the invalid-sample mask is the local bound to np.isnan(array), whatever it is called
+    masks = [n for n in walk_no_nested(fw.node) if isinstance(n, ast.Assign) and isinstance(n.targets[0], ast.Name) and ast.unparse(n.value) in ('np.isnan(array)', '~np.isfinite(array)')]
+    MASKW = masks[0].targets[0].id if len(masks) == 1 else None
+    stores = [n for n in walk_no_nested(fw.node) if isinstance(n, ast.Assign) and isinstance(n.targets[0], ast.Subscript) and ast.unparse(n.targets[0].slice) == MASKW]
     run.check(nda_w is not None and nda_w[0] == 'lit' and len(stores) == 1 and ast.unparse(stores[0].value) == nda_w[1], 'C14.sentinel', fw.qual, 'NDA', 'invalid samples are stored as the NDA value written in the header',
               'header NDA %s but invalid samples are stored as %s' % (nda_w, [ast.unparse(s.value) for s in stores]), fw.loc())
     # NaN mask taken before the integer cast
     lines = {ast.unparse(n.targets[0]): n.lineno for n in walk_no_nested(fw.node) if isinstance(n, ast.Assign)}
     cast = [n.lineno for n in walk_no_nested(fw.node) if isinstance(n, ast.Call) and isinstance(n.func, ast.Attribute) and n.func.attr == 'astype']
-    run.check('NDA_PIX' in lines and cast and lines['NDA_PIX'] < min(cast), 'C14.sentinel', fw.qual, 'mask before cast', 'NaN mask is taken before the integer cast', 'NaN mask is not taken before the cast to int16', fw.loc())
-    rmask = [n for n in walk_no_nested(fr.node) if isinstance(n, ast.Assign) and ast.unparse(n.value).replace(' ', '') == 'a==nda']
+    run.check(MASKW in lines and cast and lines[MASKW] < min(cast), 'C14.sentinel', fw.qual, 'mask before cast', 'NaN mask is taken before the integer cast', 'NaN mask is not taken before the cast to int16', fw.loc())
+    NDAR = tokvar.get(('NDA', 1))
+    rmask = [n for n in walk_no_nested(fr.node) if isinstance(n, ast.Assign) and isinstance(n.value, ast.Compare) and len(n.value.ops) == 1 and isinstance(n.value.ops[0], ast.Eq)
+             and NDAR in (ast.unparse(n.value.left), ast.unparse(n.value.comparators[0]))]
     rnan = [n for n in walk_no_nested(fr.node) if isinstance(n, ast.Assign) and isinstance(n.targets[0], ast.Subscript) and ast.unparse(n.value) == 'np.nan']
     run.check(len(rmask) == 1 and len(rnan) == 1 and rmask[0].lineno < rnan[0].lineno, 'C14.sentinel', fr.qual, 'NDA', 'reader marks samples equal to the header NDA as NaN', 'reader NDA handling changed', fr.loc())
     # scale: (x/1e3 * scale) * (1000 * WVL / SSZ) == x with WVL = header literal, SSZ = scale
@@ -363,17 +378,23 @@ def codev_rules(run, db):
     # writer side scaling expressions
     wexp = None
     pre = None
+    SCALE = ssz_w[1] if ssz_w is not None and ssz_w[0] == 'val' and ssz_w[1].isidentifier() else None
+    if SCALE is None:
+        raise AnalysisError('write_codev_gridint: the SSZ header token is not a local name')
     for n in walk_no_nested(fw.node):
         if isinstance(n, ast.Assign) and ast.unparse(n.targets[0]) == 'array':
             t = ast.unparse(n.value).replace(' ', '')
             if t == 'array/1000.0' or t == 'array/1e3':
                 pre = Rat(R.const(1)) / 1000
-            if t == 'array*scale':
+            if t in ('array*%s' % SCALE, '%s*array' % SCALE):
                 wexp = True
     rexp = None
+    WVLR, SSZR = tokvar.get(('WVL', 1)), tokvar.get(('SSZ', 1))
+    if WVLR is None or SSZR is None:
+        raise AnalysisError('read_codev_gridint: WVL / SSZ header values are not parsed into locals')
     for n in walk_no_nested(fr.node):
-        if isinstance(n, ast.Assign) and ast.unparse(n.targets[0]) == 'a' and 'ssz' in ast.unparse(n.value):
-            fr_frame = {'wvl': Sym(Rat(R.atom('wvl'))), 'ssz': Sym(Rat(R.atom('ssz')))}
+        if isinstance(n, ast.Assign) and isinstance(n.targets[0], ast.Name) and {WVLR, SSZR} <= {x_.id for x_ in ast.walk(n.value) if isinstance(x_, ast.Name)}:
+            fr_frame = {WVLR: Sym(Rat(R.atom('wvl'))), SSZR: Sym(Rat(R.atom('ssz')))}
             from ..core.interp import Frame
             class _A(Value):
                 pass
@@ -382,7 +403,7 @@ def codev_rules(run, db):
             if isinstance(v, ast.BinOp) and isinstance(v.op, ast.Mult):
                 it3._reset_run([])
                 rexp = dom3.rat(it3.ev(v.right, Frame(fr, fr.module, fr_frame)))
-    ok = pre is not None and wexp and rexp is not None and wvl_w is not None and wvl_w[0] == 'lit' and ssz_w == ('val', 'scale')
+    ok = pre is not None and wexp and rexp is not None and wvl_w is not None and wvl_w[0] == 'lit' and ssz_w == ('val', SCALE)
     if ok:
         wv = Rat(R.const(__import__('fractions').Fraction(wvl_w[1])))
         total = (x * pre * scale) * rexp.subs({'wvl': wv, 'ssz': scale})
@@ -390,14 +411,15 @@ def codev_rules(run, db):
     run.check(ok, 'C14.scale', fr.qual, 'codev scale', 'reader scale o writer scale == identity (nm -> um -> counts -> nm) with the WVL/SSZ the writer stores',
               'Code V scaling does not compose to the identity (writer pre=%s, WVL=%s, SSZ=%s, reader multiplier=%s)' % (pre, wvl_w, ssz_w, rexp.key() if rexp is not None else None), fr.loc())
     # quantisation scale: positive and bounded -> 32767 / max |valid|
-    sc = [n for n in walk_no_nested(fw.node) if isinstance(n, ast.Assign) and ast.unparse(n.targets[0]) == 'scale']
+    sc = [n for n in walk_no_nested(fw.node) if isinstance(n, ast.Assign) and ast.unparse(n.targets[0]) == SCALE]
     if len(sc) != 1:
         raise AnalysisError('write_codev_gridint: scale assignment not found')
+    MAGS = {x_.id for x_ in ast.walk(sc[0].value) if isinstance(x_, ast.Name)}          # the magnitude the scale divides by
     res = it3.run(fw, kwargs=lambda: {'array': dom3.sym('arr'), 'filename': Unknown('f'), 'comment': Const('c'), 'typ': Const('SUR'), 'nnb': Const(False)})
     vals = []
     for p in res:
-        if p.frame is not None and 'scale' in p.frame.env:
-            vals.append((p, dom3.rat(p.frame.env['scale'])))
+        if p.frame is not None and SCALE in p.frame.env:
+            vals.append((p, dom3.rat(p.frame.env[SCALE])))
     bad = []
     for p, r in vals:
         if r is None:
@@ -409,7 +431,7 @@ def codev_rules(run, db):
                 bad.append(r.key())
             # a constant scale is only safe when the path condition bounds the MAGNITUDE of the data from above
             guards = [(ast.parse(ct, mode='eval').body, tr) for ct, tr in p.conds]
-            bounded = any(isinstance(g, ast.Compare) and len(g.ops) == 1 and isinstance(g.left, ast.Name) and g.left.id == 'mag' and
+            bounded = any(isinstance(g, ast.Compare) and len(g.ops) == 1 and isinstance(g.left, ast.Name) and g.left.id in MAGS and
                           ((tr and isinstance(g.ops[0], (ast.Lt, ast.LtE))) or ((not tr) and isinstance(g.ops[0], (ast.Gt, ast.GtE)))) for g, tr in guards)
             if not bounded:
                 bad.append('constant scale %s chosen under the conditions %s, none of which bounds max|value| from above' % (r.key(), [(ct, tr) for ct, tr in p.conds]))
@@ -475,47 +497,95 @@ def struct_rules(run, db):
     run.check(len(bufs) == 1 and ast.unparse(bufs[0].args[0]) == '834', 'C14.struct', fw.qual, 'buffer size', 'header buffer is 834 bytes', 'header buffer size changed', fw.loc())
 
 
+def _field_sources(fi, e, depth=0):
+    """Where a value comes from: set of (callee name, (field, ...)) for a name / constant-subscript chain whose root local is
+    bound to a call (`z = read(...)`, `m = z['meta']`, `r = m['lateral_resolution']` -> ('read', ('meta', 'lateral_resolution')))."""
+    chain = []
+    while isinstance(e, ast.Subscript) and isinstance(e.slice, ast.Constant):
+        chain.insert(0, e.slice.value)
+        e = e.value
+    out = set()
+    if isinstance(e, ast.Call):
+        out.add((ast.unparse(e.func), tuple(chain)))
+    elif isinstance(e, ast.Name) and depth < 6:
+        for n in walk_no_nested(fi.node):
+            if isinstance(n, ast.Assign) and any(isinstance(t, ast.Name) and t.id == e.id for t in n.targets):
+                for c_, ch in _field_sources(fi, n.value, depth + 1):
+                    out.add((c_, ch + tuple(chain)))
+    return out
+
+
 def zygo_scale_rules(run, db, sets):
+    from ..core.pattern import find
     it, dom = norm_interp(db)
     R = dom.R
     fw, fr = db.func(IO + 'write_zygo_dat'), db.func(IO + 'read_zygo_dat')
     from ..core.interp import Frame
-    # writer: counts = phase / 1e9 * (1/sf) with sf = W S O / R
-    def env_of(fi, upto_names, seed):
+    orig_ext = dom.call_ext
+
+    def call_ext(dotted, args, kwargs, node):
+        # orientation is the FLIP domain's business; for the scale a flip is the identity
+        if dotted in ('numpy.flipud', 'numpy.fliplr', 'numpy.flip', 'numpy.ascontiguousarray') and args:
+            return args[0]
+        return orig_ext(dotted, args, kwargs, node)
+    dom.call_ext = call_ext
+
+    def env_of(fi, seed, stop=None):
+        """evaluate every top-level `name = expr` in source order (names seeded by role are kept)."""
         it._reset_run([])
         fr_ = Frame(fi, fi.module, dict(seed))
-        for st in sorted([n for n in walk_no_nested(fi.node) if isinstance(n, ast.Assign) and isinstance(n.targets[0], ast.Name) and n.targets[0].id in upto_names], key=lambda s: s.lineno):
+        for st in sorted([n for n in walk_no_nested(fi.node) if isinstance(n, ast.Assign) and isinstance(n.targets[0], ast.Name)], key=lambda s_: s_.lineno):
+            if stop is not None and st.lineno >= stop:
+                break
+            if st.targets[0].id in seed and st.targets[0].id not in fi.params:
+                continue
             try:
                 fr_.env[st.targets[0].id] = it.ev(st.value, fr_)
             except Exception:
                 fr_.env[st.targets[0].id] = Unknown('eval')
         return fr_
-    wf = env_of(fw, ['phase_res_fctr', 'W', 'S', 'O', 'R', 'sf_m', 'sf_nm'], {'wavelength': dom.sym('wavelength')})
+    # writer: counts = phase / 1e9 * (1/sf) with sf = W S O / R; the cast statement is `<name> = (<expression>).astype(<int>)`
+    casts = [n for n in walk_no_nested(fw.node) if isinstance(n, ast.Assign) and isinstance(n.targets[0], ast.Name) and isinstance(n.value, ast.Call)
+             and isinstance(n.value.func, ast.Attribute) and n.value.func.attr == 'astype' and not isinstance(n.value.func.value, ast.Name)]
     cnt = None
-    for n in walk_no_nested(fw.node):
-        if isinstance(n, ast.Assign) and ast.unparse(n.targets[0]) == 'im' and isinstance(n.value, ast.Call) and isinstance(n.value.func, ast.Attribute) and n.value.func.attr == 'astype':
-            wf.env['phase'] = dom.sym('x')
-            cnt = dom.rat(it.ev(n.value.func.value, wf))
-    # reader: phase = raw * (W S O / R) * 1e9 with header values
-    hdrW = sets.get('wavelength')
-    rf = env_of(fr, [], {})
-    rf.env.update({'W': dom.sym('Wh'), 'S': dom.sym('Sh'), 'O': dom.sym('Oh'), 'R': dom.sym('Rh')})
+    if len(casts) == 1:
+        wf = env_of(fw, {'wavelength': dom.sym('wavelength'), 'phase': dom.sym('x')}, stop=casts[0].lineno)
+        wf.env['phase'] = dom.sym('x')
+        it._reset_run([])
+        cnt = dom.rat(it.ev(casts[0].value.func.value, wf))
+    IM = casts[0].targets[0].id if len(casts) == 1 else None
+    # reader: phase = raw * (W S O / R) * 1e9 with header values; the locals are identified by the header field they are read from
+    roles = {'wavelength': 'Wh', 'scale_factor': 'Sh', 'obliquity_factor': 'Oh', 'phase_res': 'res_h'}
+    seed = {}
+    for b_, n in find(fr.node, 'V_x = V_m[E_k]'):
+        if isinstance(b_['E_k'], ast.Constant) and b_['E_k'].value in roles:
+            seed[b_['V_x']] = dom.sym(roles[b_['E_k'].value])
+    for b_, n in find(fr.node, 'V_R = ZYGO_PHASE_RES_FACTORS[V_res]'):
+        if b_['V_res'] in seed:
+            seed[b_['V_R']] = dom.sym('Rh')
+    if len(seed) != 5:
+        raise AnalysisError('read_zygo_dat: the header values (wavelength, scale_factor, obliquity_factor, phase_res and its factor) are not all read into locals: %s' % sorted(seed))
+    rf = env_of(fr, seed)
+    rets = [n for n in walk_no_nested(fr.node) if isinstance(n, ast.Return) and isinstance(n.value, ast.Dict)]
+    out_phase = {ast.unparse(v) for n in rets for k, v in zip(n.value.keys, n.value.values) if isinstance(k, ast.Constant) and k.value == 'phase'}
     mult = None
-    sfexp = None
-    for n in sorted([n for n in walk_no_nested(fr.node) if isinstance(n, (ast.Assign, ast.AugAssign))], key=lambda s: s.lineno):
-        if isinstance(n, ast.Assign) and ast.unparse(n.targets[0]) == 'sf':
-            it._reset_run([])
-            rf.env['sf'] = it.ev(n.value, rf)
-        if isinstance(n, ast.AugAssign) and ast.unparse(n.target) == 'phase' and isinstance(n.op, ast.Mult):
-            it._reset_run([])
-            mult = dom.rat(it.ev(n.value, rf))
+    nm = 0
+    for n in sorted([n for n in walk_no_nested(fr.node) if isinstance(n, ast.AugAssign) and isinstance(n.op, ast.Mult)], key=lambda s_: s_.lineno):
+        it._reset_run([])
+        try:
+            v_ = dom.rat(it.ev(n.value, rf))
+        except Exception:
+            v_ = None
+        if v_ is not None and v_.atoms() & {'Wh', 'Sh', 'Oh', 'Rh'} and ast.unparse(n.target) in out_phase:
+            mult = v_
+            nm += 1
+    if nm > 1:
+        raise AnalysisError('read_zygo_dat: the returned phase is scaled more than once')
     ok = cnt is not None and mult is not None
-    detail = ''
+    detail = 'writer counts = %s, reader scale = %s' % (cnt.key() if cnt is not None else 'not found', mult.key() if mult is not None else 'not found')
     if ok:
         # header values the writer stores: W = wavelength/1e6, S = 1, O = 1, phase_res = 1 -> R = factor[1]
-        wl = Rat(R.atom('wavelength'))
         try:
-            from fractions import Fraction
             Wst = dom.rat(it.ev(ast.parse(sets.get('wavelength', 'None'), mode='eval').body, Frame(fw, fw.module, {'wavelength': dom.sym('wavelength')})))
             Sst = dom.rat(it.ev(ast.parse(sets.get('scale_factor', 'None'), mode='eval').body, Frame(fw, fw.module, {})))
             Ost = dom.rat(it.ev(ast.parse(sets.get('obliquity_factor', 'None'), mode='eval').body, Frame(fw, fw.module, {})))
@@ -532,19 +602,24 @@ def zygo_scale_rules(run, db, sets):
     run.check(ok, 'C14.scale', fr.qual, 'zygo scale', 'reader scale o writer scale == identity with the (W, S, O, phase_res) the writer stores in the header',
               'Zygo scaling does not compose to the identity: %s' % detail, fr.loc())
     # sentinel
-    sw = [n for n in walk_no_nested(fw.node) if isinstance(n, ast.Assign) and isinstance(n.targets[0], ast.Subscript) and ast.unparse(n.targets[0]) == 'im[mask]']
+    sw = [n for n in walk_no_nested(fw.node) if isinstance(n, ast.Assign) and isinstance(n.targets[0], ast.Subscript) and isinstance(n.targets[0].value, ast.Name) and n.targets[0].value.id == IM
+          and isinstance(n.targets[0].slice, ast.Name)]
     rw = [n for n in walk_no_nested(fr.node) if isinstance(n, ast.Assign) and isinstance(n.targets[0], ast.Subscript) and ast.unparse(n.value) == 'np.nan']
     ok = len(sw) == 1 and ast.unparse(sw[0].value) == 'ZYGO_INVALID_PHASE' and len(rw) == 1 and 'ZYGO_INVALID_PHASE' in ast.unparse(rw[0].targets[0]) and '>=' in ast.unparse(rw[0].targets[0])
     run.check(ok, 'C14.sentinel', fw.qual, 'zygo sentinel', 'writer stores and reader tests the same invalid-phase constant', 'Zygo invalid-phase sentinel differs between writer and reader', fw.loc())
-    mk = [n for n in walk_no_nested(fw.node) if isinstance(n, ast.Assign) and ast.unparse(n.targets[0]) == 'mask']
-    cast = [n for n in walk_no_nested(fw.node) if isinstance(n, ast.Assign) and ast.unparse(n.targets[0]) == 'im']
+    MASK = sw[0].targets[0].slice.id if len(sw) == 1 else None
+    mk = [n for n in walk_no_nested(fw.node) if isinstance(n, ast.Assign) and ast.unparse(n.targets[0]) == MASK]
+    cast = casts
     flp = [n for n in walk_no_nested(fw.node) if isinstance(n, ast.Assign) and ast.unparse(n.targets[0]) == 'phase' and 'flip' in ast.unparse(n.value)]
     run.check(len(mk) == 1 and len(cast) == 1 and mk[0].lineno < cast[0].lineno and 'isnan(phase)' in ast.unparse(mk[0].value) and all(f.lineno < mk[0].lineno for f in flp),
               'C14.sentinel', fw.qual, 'zygo mask', 'NaN mask taken from the (already flipped) map before the integer cast', 'NaN mask is not taken from the flipped map before the cast', fw.loc())
     # lateral resolution / wavelength round trip through Interferogram
     fi = db.func('prysm.interferogram.Interferogram.from_zygo_dat')
-    src = ast.unparse(fi.node)
-    run.check(sets.get('lateral_resolution', '').replace(' ', '') in ('dx/1000.0', 'dx/1e3') and 'dx=res * 1000.0' in src, 'C14.scale', fi.qual, 'lateral resolution', 'dx: mm -> m in the file -> mm on load',
+    ctor0 = [n for n in walk_no_nested(fi.node) if isinstance(n, ast.Call) and ast.unparse(n.func) == 'Interferogram']
+    dxe = next((k.value for c_ in ctor0 for k in c_.keywords if k.arg == 'dx'), None)
+    okdx = isinstance(dxe, ast.BinOp) and isinstance(dxe.op, ast.Mult) and isinstance(dxe.right, ast.Constant) and dxe.right.value == 1e3 \
+        and ('read_zygo_dat', ('meta', 'lateral_resolution')) in _field_sources(fi, dxe.left)
+    run.check(sets.get('lateral_resolution', '').replace(' ', '') in ('dx/1000.0', 'dx/1e3') and okdx, 'C14.scale', fi.qual, 'lateral resolution', 'dx: mm -> m in the file -> mm on load',
               'lateral resolution units do not round trip (writer %s)' % sets.get('lateral_resolution'), fi.loc())
     fin = db.func('prysm.interferogram.Interferogram.__init__')
     run.check(sets.get('wavelength', '').replace(' ', '') in ('wavelength/1000000.0', 'wavelength/1e6') and 'wavelength *= 1000000.0' in ast.unparse(fin.node), 'C14.scale', fin.qual, 'wavelength',
@@ -562,8 +637,7 @@ def zygo_scale_rules(run, db, sets):
     ok_init = bool(first_get) and isinstance(first_get[0].args[0], ast.Constant) and sorted(first_get, key=lambda n_: n_.lineno)[0].args[0].value == 'wavelength'
     run.check((delegated and ok_init) or direct, 'C14.scale', fi.qual, 'wavelength field', "the loaded object's wavelength comes from the header field 'wavelength' (the one write_zygo_dat stores)",
               "from_zygo_dat builds the Interferogram with wavelength=%s; write_zygo_dat stores the wavelength under 'wavelength' only, so another field (or a default left in it) makes a saved non-HeNe wavelength come back changed" % wtxt, fi.loc(ctor[0]))
-    okm = ast.unparse(ckw.get('phase', ast.Constant(None))) in ('phase', "zydat['phase']") and ast.unparse(ckw.get('meta', ast.Constant(None))) in ("zydat['meta']", 'meta') \
-        and ast.unparse(ckw.get('intensity', ast.Constant(None))) == "zydat['intensity']"
+    okm = all(('read_zygo_dat', (fld,)) in _field_sources(fi, ckw[fld]) for fld in ('phase', 'meta', 'intensity') if fld in ckw) and {'phase', 'meta', 'intensity'} <= set(ckw)
     run.check(okm, 'C14.scale', fi.qual, 'loader wiring', 'phase, intensity and header of the file go to the object', 'from_zygo_dat wiring changed', fi.loc(ctor[0]))
     fs = db.func('prysm.interferogram.Interferogram.save_zygo_dat')
     calls = [n for n in walk_no_nested(fs.node) if isinstance(n, ast.Call) and ast.unparse(n.func) == 'write_zygo_dat']
@@ -572,12 +646,17 @@ def zygo_scale_rules(run, db, sets):
 
 
 def trunc_rules(run, db):
+    from ..core.pattern import match_all
     fr = db.func(IO + 'read_zygo_dat')
     tries = [n for n in walk_no_nested(fr.node) if isinstance(n, ast.Try)]
-    phase_try = [t for t in tries if 'phase_raw' in ast.unparse(t.body[0])] if tries else []
+    is_fb = lambda st: isinstance(st, ast.Assign) and isinstance(st.value, ast.Call) and ast.unparse(st.value.func).endswith('frombuffer')
+    phase_try = [t for t in tries if t.body and is_fb(t.body[0])]
     if len(phase_try) != 1:
-        raise AnalysisError('read_zygo_dat: try around the phase block not found')
+        raise AnalysisError('read_zygo_dat: try around the phase block (np.frombuffer) not found')
     t = phase_try[0]
+    fb = match_all(t.body[0], ['V_raw = np.frombuffer(V_c, offset=E_off, count=V_n, dtype=E_dt)'])
+    if fb is None:
+        raise AnalysisError('read_zygo_dat: the phase block is not read by np.frombuffer(contents, offset=..., count=..., dtype=...)')
     for h in t.handlers:
         body = h.body
         ends_raise = isinstance(body[-1], ast.Raise)
@@ -587,22 +666,23 @@ def trunc_rules(run, db):
         cover = False
         if marks:
             sl = marks[0].targets[0].slice
-            tail = isinstance(sl, ast.Slice) and sl.upper is None and isinstance(sl.lower, ast.UnaryOp) and isinstance(sl.lower.op, ast.USub)
+            tail = isinstance(sl, ast.Slice) and sl.upper is None and isinstance(sl.lower, ast.UnaryOp) and isinstance(sl.lower.op, ast.USub) and isinstance(sl.lower.operand, ast.Name)
             if tail:
-                nm = ast.unparse(sl.lower.operand)
-                defs = [st for st in body if isinstance(st, ast.Assign) and ast.unparse(st.targets[0]) == nm]
-                # the number of marked samples must be ceil(missing bytes / 4): covers every partially missing sample
-                cover = bool(defs) and ast.unparse(defs[0].value).replace(' ', '') in ('math.ceil(len(missing_buf)/4)', '-(-len(missing_buf)//4)')
-                miss = [st for st in body if isinstance(st, ast.Assign) and ast.unparse(st.targets[0]) == 'missing_buf']
-                cover = cover and bool(miss) and ast.unparse(miss[0].value).replace(' ', '') == 'bytes(plen*4-valid)'
+                # the number of marked samples must be ceil(missing bytes / 4) with missing = 4 * count - (len(contents) - offset): covers every partially missing sample
+                env = {'V_c': fb['V_c'], 'V_n': fb['V_n'], 'V_bt': sl.lower.operand.id}
+                for count in ('V_bt = math.ceil(len(V_miss) / 4)', 'V_bt = -(-len(V_miss) // 4)'):
+                    for valid in (['V_o = E_off', 'V_valid = len(V_c) - V_o'], ['V_valid = len(V_c) - E_off']):
+                        b_ = match_all(body, valid + ['V_miss = bytes(V_n * 4 - V_valid)', count], env=dict(env))
+                        if b_ is not None and ast.dump(b_['E_off']) == ast.dump(fb['E_off']):
+                            cover = True
         run.check(ends_raise or (warns and marks and tail and cover), 'C14.trunc', fr.qual, 'truncated phase block',
                   'a short phase block is rejected, or warned about and the missing tail (ceil(missing bytes/4) samples) marked invalid',
                   'truncated-data handler neither raises nor (warns and marks every missing sample invalid): warn=%s, marks=%s, tail-slice=%s, covers-all-missing=%s' % (warns, bool(marks), tail, cover), fr.loc(h))
     # the marked samples must survive: sentinel test happens after the handler and is >=
     # intensity block: no handler (a short buffer raises)
-    inten = [n for n in walk_no_nested(fr.node) if isinstance(n, ast.Assign) and ast.unparse(n.targets[0]) == 'intensity' and 'frombuffer' in ast.unparse(n.value)]
-    intry = any(any(x is inten[0] for x in ast.walk(tt)) for tt in tries) if inten else True
-    run.check(bool(inten) and not intry, 'C14.trunc', fr.qual, 'truncated intensity block', 'a file cut inside the intensity block raises (no handler)', 'the intensity block read is wrapped in a handler', fr.loc())
+    has_fb = lambda st: isinstance(st, ast.Assign) and any(isinstance(x_, ast.Call) and ast.unparse(x_.func).endswith('frombuffer') for x_ in ast.walk(st.value))
+    inten = [n for n in walk_no_nested(fr.node) if has_fb(n) and not any(any(x is n for x in ast.walk(tt)) for tt in tries)]
+    run.check(bool(inten), 'C14.trunc', fr.qual, 'truncated intensity block', 'a file cut inside the intensity block raises (no handler)', 'the intensity block read is wrapped in a handler', fr.loc())
 
 
 def check(run, db, tier):
